@@ -7,7 +7,9 @@ import (
 	"image"
 	"image/color"
 	"math"
+	"os"
 	"strings"
+	"sync"
 
 	"github.com/reactivego/ivg"
 	"github.com/reactivego/ivg/decode"
@@ -1680,7 +1682,69 @@ func suiteC07(s *Shard, n int) {
 		for _, f := range monitorC07(line, ops, s) {
 			s.Fail(f.Clause, f.Case, f.Detail)
 		}
+		if i%8 == 0 {
+			for _, f := range monitorLogger(line, ops, r.Bool()) {
+				s.Fail(f.Clause, f.Case, f.Detail)
+			}
+		}
 	}
+}
+
+var stdoutMu sync.Mutex
+
+// quietly runs f with os.Stdout pointing at the null device (DestinationLogger prints every call).
+func quietly(f func()) {
+	stdoutMu.Lock()
+	old := os.Stdout
+	dn, err := os.OpenFile(os.DevNull, os.O_WRONLY, 0)
+	if err == nil {
+		os.Stdout = dn
+	}
+	defer func() {
+		os.Stdout = old
+		if err == nil {
+			dn.Close()
+		}
+		stdoutMu.Unlock()
+	}()
+	f()
+}
+
+// monitorLogger: a DestinationLogger around a Destination delivers to it exactly the calls it receives (and
+// reports its selectors), so every pipeline of C07 may be observed through one.
+func monitorLogger(line string, ops []GenOp, alt bool) (fails []Failure) {
+	direct := &Recorder{}
+	var sels [][2]uint8
+	if _, p := runGenInto(direct, ops, &sels); p != "" {
+		return nil
+	}
+	inner := &Recorder{}
+	lg := &ivg.DestinationLogger{Destination: inner, Alt: alt}
+	var sels2 [][2]uint8
+	panicked := ""
+	quietly(func() { _, panicked = runGenInto(lg, ops, &sels2) })
+	if panicked != "" {
+		return []Failure{{"C07.logger-forwards", line, "panic: " + panicked}}
+	}
+	if a, b := ShowCalls(direct.Calls), ShowCalls(inner.Calls); a != b {
+		k := 0
+		for k < len(direct.Calls) && k < len(inner.Calls) && direct.Calls[k].String() == inner.Calls[k].String() {
+			k++
+		}
+		got := "(nothing)"
+		if k < len(inner.Calls) {
+			got = inner.Calls[k].String()
+		}
+		want := "(nothing)"
+		if k < len(direct.Calls) {
+			want = direct.Calls[k].String()
+		}
+		return []Failure{{"C07.logger-forwards", line, fmt.Sprintf("call %d behind a DestinationLogger (Alt=%v) is %s, without it %s", k, alt, got, want)}}
+	}
+	if fmt.Sprint(sels) != fmt.Sprint(sels2) {
+		return []Failure{{"C07.logger-forwards", line, "selectors read through the DestinationLogger differ"}}
+	}
+	return nil
 }
 
 // GradHelper draws a generator gradient helper call with valid stops most of the time.
